@@ -409,12 +409,29 @@ func (c *client40) send(f failer, r *seqRequest40) *nfsv4.Compound4res {
 	if mc.Active("C19") {
 		before := w.snapshot()
 		res2 := w.compound(0, r.what+"(retransmitted)", r.build(next)...)
-		// (If the retransmitted COMPOUND fails before it reaches the
-		// sequenced operation, e.g. because PUTFH of a meanwhile
-		// unlinked and closed file fails, there is no reply to
-		// compare.)
-		if consumed(st) && r.idx < len(res.Resarray) && r.idx < len(res2.Resarray) {
-			if !bytes.Equal(encodeOp(res.Resarray[r.idx]), encodeOp(res2.Resarray[r.idx])) {
+		// The retransmission is the identical COMPOUND, operations
+		// before the sequenced one included (PUTFH of the handle the
+		// client used the first time). NFSv4.0 detects replays at the
+		// sequenced operation; the unsequenced operations before it are
+		// executed again. Rule: if the ORIGINAL sequenced operation
+		// succeeded (NFS4_OK: the request took effect), the
+		// retransmission must reach it again and get the original reply:
+		// a file that was unlinked while open is resolvable by handle
+		// only through the server's opened files pool (fakeFS.resolve,
+		// like the real handle allocators, forgets unlinked leaves), so
+		// the server has to keep that entry for as long as it keeps the
+		// cached reply (two-phase close). If the original sequenced
+		// operation itself failed, a retransmission that fails earlier
+		// is accepted (e.g. an OPEN CLAIM_PREVIOUS that made the server
+		// discard the owner's unconfirmed open, the only thing that kept
+		// the handle alive, and was then refused NFS4ERR_RECLAIM_BAD);
+		// "nothing changes" is demanded below in every case.
+		if consumed(st) && r.idx < len(res.Resarray) {
+			if r.idx >= len(res2.Resarray) {
+				if st == nfsv4.NFS4_OK {
+					f.FailP("C19", "retransmission-different-reply/"+r.kind, "retransmitted COMPOUND with %s: the first reply had %d results (status %d, %s answered NFS4_OK), the retransmission of the identical COMPOUND failed before it reached %s: %d results, status %d (leaves still linked: %s)", r.what, len(res.Resarray), res.Status, r.kind, r.kind, len(res2.Resarray), res2.Status, w.fs.linkedNames())
+				}
+			} else if !bytes.Equal(encodeOp(res.Resarray[r.idx]), encodeOp(res2.Resarray[r.idx])) {
 				f.FailP("C19", "retransmission-different-reply/"+r.kind, "retransmitted %s: first reply status %d, second reply status %d, XDR bytes differ", r.what, st, opStatus(res2, r.idx))
 			} else if (r.kind != "OPEN" || w.strictOpenReplay) && !bytes.Equal(encodeRes(res), encodeRes(res2)) {
 				// The sequenced operation was answered from the
